@@ -4,6 +4,7 @@
   is in Snmp/Lemmas/WalkRefine.lean — see DESIGN.md for what is proved at which level)
 -/
 import Snmp.Lemmas.WalkAbs
+import Snmp.Lemmas.WalkFaithful
 namespace Snmp.Props.C01
 open Snmp Snmp.WalkAbs
 
@@ -27,6 +28,28 @@ theorem C01_abs_single_sorted (db : List Oid) (root : Oid) (hs : Sorted db) :
     first endOfMibView" lossless for ascending cursors. -/
 theorem C01_convex (root a b c : Oid) (ha : root <+: a) (hc : root <+: c)
     (hab : a ≤ b) (hbc : b ≤ c) : root <+: b := convex root a b c ha hc hab hbc
+
+/-- **On the Python-faithful model**: the outcome does not depend on the order in which the roots
+    were listed — requests, yields and ending of `multiwalk` are identical for every permutation
+    (any fetcher, any mode). -/
+theorem C01_order_independent (fetch : Fetcher) (roots roots' : List Oid) (h : roots'.Perm roots)
+    (lenient : Bool) (fuel : Nat) :
+    Walk.multiwalk fetch roots' lenient fuel = Walk.multiwalk fetch roots lenient fuel :=
+  Walk.multiwalk_perm fetch roots roots' h lenient fuel
+
+/-- **On the Python-faithful model, for ANY agent** (conformant or not): every yielded binding lies
+    inside one of the requested roots, and no OID is yielded more than once. -/
+theorem C01_sound_nodup (fetch : Fetcher) (roots : List Oid) (lenient : Bool) (fuel : Nat) :
+    (Walk.yieldOids (Walk.multiwalk fetch roots lenient fuel).events).Nodup ∧
+    ∀ y ∈ Walk.yieldOids (Walk.multiwalk fetch roots lenient fuel).events, ∃ r ∈ roots, r <+: y := by
+  have h := Walk.multiwalk_good fetch roots lenient fuel
+  refine ⟨h.1, ?_⟩
+  intro y hy
+  rcases h.2 y hy with ⟨r, hr, hin⟩
+  have hr' : r ∈ roots := by
+    have := (List.mergeSort_perm roots Walk.oidLe).mem_iff (a := r)
+    exact this.mp hr
+  exact ⟨r, hr', (inside_iff r y).mp hin⟩
 
 example : Sorted [[1,3,1,1],[1,3,2,1]] ∧ Disjoint [[1,3,1],[1,3,2]] := by
   refine ⟨by unfold Sorted; decide, by unfold Disjoint; decide⟩
